@@ -109,7 +109,7 @@ def _static_type(prog: Program, fn: FuncInfo, e: ast.AST, at: int | None = None,
             return [k for k in kinds if k[0] != "plain"][0]
     if isinstance(e, ast.Call):
         d = dotted(e.func) or ""
-        if d in ("float", "int", "str", "bool", "round", "len"):
+        if d in ("float", "int", "str", "bool", "round", "len", "os.fspath", "os.fsdecode"):
             return ("plain", f"{d}()")
         return ("unknown", f"call {d}")
     if isinstance(e, ast.Name):
